@@ -1414,6 +1414,31 @@ def run(index, rep, tier):
                               "%s evaluates `%s` on a path that has not established `%s is not None`: a CHARACTERS / TREES block without a TITLE statement has the label None, so a `LINK ... = <title>` (or a corrupted TITLE keyword) makes the reader fail with AttributeError: 'NoneType' object has no attribute '%s' instead of its own UndefinedBlockError" % (fi.qualname, norm(c), x, c.func.attr))
         rep.floor("R20.20", "string methods applied to block labels", 3, n20)
 
+    # ---- R20.21 a range whose end comes from the document is clamped to a declared dimension
+    with rep.section("R20.21"):
+        rep.rule("R20.21", "the work done for one token is bounded by the declared dimensions, not by a number in the text: where the NEXUS reader iterates range(start, stop, ...) and `stop` derives from int(<token>), the stop is clamped with min(..., <declared dimension>) - `charset x = 1-99999999999;` otherwise loops over the whole declared interval (testing each position against NCHAR one by one) and the reader practically never returns")
+        n21 = 0
+        for f in index.functions_in_module("dendropy.dataio.nexusreader"):
+            for c in calls_in(f.node):
+                if not (isinstance(c.func, ast.Name) and c.func.id == "range" and len(c.args) >= 2):
+                    continue
+                stop = c.args[1]
+                names = {x.id for x in ast.walk(stop) if isinstance(x, ast.Name)}
+                from_doc = {nm for nm in names if any(isinstance(a, ast.Assign) and norm(a.targets[0]) == nm and isinstance(a.value, ast.Call) and isinstance(a.value.func, ast.Name) and a.value.func.id == "int" for a in walk_no_nested(f.node))}
+                if not from_doc:
+                    continue
+                n21 += 1
+                # clamped: each document-derived name occurs only inside a min(...) that also has another operand, or was rebound by `x = min(x, ...)` before
+                def clamped(nm):
+                    inside = all(any(isinstance(p, ast.Call) and call_name(p) == "min" and len(p.args) >= 2 and any(q is x for q in ast.walk(p)) for p in ast.walk(stop)) for x in ast.walk(stop) if isinstance(x, ast.Name) and x.id == nm)
+                    if inside:
+                        return True
+                    return any(isinstance(a, ast.Assign) and norm(a.targets[0]) == nm and isinstance(a.value, ast.Call) and call_name(a.value) == "min" and len(a.value.args) >= 2 and a.lineno < c.lineno for a in walk_no_nested(f.node))
+                bad = sorted(nm for nm in from_doc if not clamped(nm))
+                rep.check(not bad, "R20.21", f.qualname, "range() up to a number from the document", fn_where(f, c), "%s: `%s` is clamped" % (f.name, norm(c)[:50]),
+                          "%s iterates `%s` where `%s` is an integer read from the document and is not clamped to a declared dimension: a position list such as `1-99999999999` makes the reader loop over the whole interval - it never terminates in practice although every position beyond NCHAR is going to be discarded anyway" % (f.qualname, norm(c)[:60], ", ".join(bad)))
+        rep.floor("R20.21", "ranges bounded by a number from the document", 1, n21)
+
 
 def _branch_calls_raiser(cfg, n):
     for lab, t in n.succ:
